@@ -52,10 +52,7 @@ func c38dRun(alphabet []int, seq []int, ctr *xdsclient.ClusterRequestsCounter) (
 		if op == 3 {
 			if inflight == 0 {
 				// ending a request that was never admitted is not a legal history
-				if k == len(seq)-1 {
-					skip = true
-				}
-				continue
+				return "", true, adm, rej
 			}
 			ctr.EndRequest()
 			inflight--
@@ -98,7 +95,7 @@ func TestVerif_C38_Counter(t *testing.T) {
 	defer r.Finish()
 	depth := r.Pick(8, 12)
 	mixedDepth := r.Pick(8, 10)
-	r.Rule(P, fmt.Sprintf("every sequence of length 1..%d over {start, end} for each fixed max_requests in {0,1,2}, and every sequence of length 1..%d over {start(max=0), start(max=1), start(max=2), end} (limit changing between calls), on a fresh ClusterRequestsCounter (sequences whose last op is an end with nothing in flight are skipped), compared with an in-flight ledger after every op; finally all admitted requests end and the counter must read 0; the registry GetClusterRequestsCounter is checked to hand out one counter per (cluster, service) key; non-trivial = sequences with at least one admitted and one rejected start", depth, mixedDepth))
+	r.Rule(P, fmt.Sprintf("every sequence of length 1..%d over {start, end} for each fixed max_requests in {0,1,2}, and every sequence of length 1..%d over {start(max=0), start(max=1), start(max=2), end} (limit changing between calls), on a fresh ClusterRequestsCounter (sequences containing an end with nothing in flight are not legal histories and are skipped), compared with an in-flight ledger after every op; finally all admitted requests end and the counter must read 0; the registry GetClusterRequestsCounter is checked to hand out one counter per (cluster, service) key; non-trivial = sequences with at least one admitted and one rejected start", depth, mixedDepth))
 	alphabets := [][]int{{0, 3}, {1, 3}, {2, 3}, {0, 1, 2, 3}}
 	if r.ReplayFile() != "" {
 		var rp struct {
